@@ -34,6 +34,9 @@ namespace C01
 theorem lexer_rules_are_the_modelled_ones :
     Generated.lexRuleNames = TokKind.all.map TokKind.name := by decide
 
+/-- the lexer patterns of the code are, text for text, the ones the model's recognisers were written for -/
+theorem lexer_patterns_are_the_modelled_ones : Generated.lexRulePatterns = TokKind.patterns := by decide
+
 /-- every delivered token moves the parser's bracket stack by exactly its nesting step -/
 theorem token_moves_the_bracket_stack_by_its_nesting_step (T : Table) (s s' : PState) (tok : Tok)
     (h : Machine.deliver T s tok = .ok s') : Brackets.dstep s.brackets tok.kind = some s'.brackets :=
